@@ -23,10 +23,11 @@ import (
 // is invisible there. The oracle is again the race detector; nothing is asserted about timing.
 
 type raceFSM struct {
-	mu      sync.Mutex
-	applied int
-	thresh  int
-	pad     int
+	mu           sync.Mutex
+	applied      int
+	thresh       int
+	pad          int
+	restoreDelay time.Duration // a slow Restore keeps the sender's InstallSnapshot RPC in flight
 }
 
 func (f *raceFSM) Apply(op *raft.Operation) interface{} {
@@ -53,6 +54,9 @@ func (f *raceFSM) Restore(r io.Reader) error {
 	}
 	var n int
 	fmt.Sscanf(string(b), "%d:", &n)
+	if f.restoreDelay > 0 {
+		time.Sleep(f.restoreDelay)
+	}
 	f.mu.Lock()
 	f.applied = n
 	f.mu.Unlock()
@@ -80,6 +84,10 @@ type realParams struct {
 	SnapPad   int  `json:"snapshot_padding"`
 	AddNode   bool `json:"add_node"`
 	StopStart bool `json:"stop_start_follower"`
+	LateAdd   bool `json:"late_add"`
+	RestoreMs int  `json:"newcomer_restore_ms"`
+	LateMs    int  `json:"late_add_ms_before_stop"`
+	KeepDown  bool `json:"keep_follower_down"` // the stopped follower stays down: the leader keeps trying to send it entries / its snapshot until the end
 }
 
 func runRealCluster(t fataler, dir string, p realParams) (ops int64, snaps bool) {
@@ -100,6 +108,12 @@ func runRealCluster(t fataler, dir string, p realParams) (ops int64, snaps bool)
 	// (registered before any node exists: a case that cannot be set up - e.g. a port taken by another
 	// process between freeAddr and Start - must not leave running nodes behind when its directory goes)
 	defer func() {
+		// the leader first: it may be in the middle of bringing somebody up to date
+		for _, r := range nodes {
+			if r != nil && r.Status().State == raft.Leader {
+				r.Stop()
+			}
+		}
 		for _, r := range nodes {
 			if r != nil {
 				r.Stop()
@@ -118,6 +132,9 @@ func runRealCluster(t fataler, dir string, p realParams) (ops int64, snaps bool)
 	}()
 	for i := 0; i <= n; i++ {
 		fsms[i] = &raceFSM{thresh: p.Thresh, pad: p.SnapPad}
+		if i == n {
+			fsms[i].restoreDelay = time.Duration(p.RestoreMs) * time.Millisecond
+		}
 		r, err := raft.NewRaft(ids[i], addrs[i], fsms[i], fmt.Sprintf("%s/%s", dir, ids[i]), opts...)
 		if err != nil {
 			stats.For("C20").Note("real-transport case could not be set up (NewRaft): " + err.Error())
@@ -209,7 +226,7 @@ func runRealCluster(t fataler, dir string, p realParams) (ops int64, snaps bool)
 	}()
 	half := time.Duration(p.RunMs) * time.Millisecond / 2
 	time.Sleep(half)
-	if p.AddNode {
+	if p.AddNode && !p.LateAdd {
 		if l := leader(); l != nil {
 			l.AddServer(ids[n], addrs[n], false, time.Second).Await()
 		}
@@ -218,8 +235,10 @@ func runRealCluster(t fataler, dir string, p realParams) (ops int64, snaps bool)
 		for _, r := range nodes[:n] {
 			if r.Status().State != raft.Leader {
 				r.Stop()
-				time.Sleep(50 * time.Millisecond)
-				_ = r.Start()
+				if !p.KeepDown {
+					time.Sleep(50 * time.Millisecond)
+					_ = r.Start()
+				}
 				break
 			}
 		}
@@ -227,6 +246,14 @@ func runRealCluster(t fataler, dir string, p realParams) (ops int64, snaps bool)
 	time.Sleep(half)
 	close(stop)
 	wg.Wait()
+	if p.AddNode && p.LateAdd {
+		// the newcomer is added at the very end: its snapshot transfer (slow Restore, big payload) is still
+		// going on when the nodes are stopped, leader first
+		if l := leader(); l != nil {
+			l.AddServer(ids[n], addrs[n], false, 200*time.Millisecond)
+		}
+		time.Sleep(time.Duration(p.LateMs) * time.Millisecond)
+	}
 	for _, f := range fsms {
 		f.mu.Lock()
 		if f.applied >= p.Thresh {
@@ -241,7 +268,7 @@ func runRealCluster(t fataler, dir string, p realParams) (ops int64, snaps bool)
 func TestC20Real(t *testing.T) {
 	base := scratchRoot(t)
 	col := stats.For("C20")
-	budget := envInt("VERIF_REAL_CASES", 2)
+	budget := envInt("VERIF_REAL_CASES", 3)
 	if thorough() {
 		budget = envInt("VERIF_REAL_CASES", 25)
 	}
@@ -260,9 +287,13 @@ func TestC20Real(t *testing.T) {
 			Payload:   rapid.SampledFrom([]int{0, 8, 200, 5000}).Draw(rt, "payload"),
 			PaceUs:    rapid.SampledFrom([]int{0, 200, 1000, 3000}).Draw(rt, "pace"),
 			RunMs:     rapid.SampledFrom([]int{800, 1500, 2500}).Draw(rt, "run"),
-			SnapPad:   rapid.SampledFrom([]int{0, 100, 40000}).Draw(rt, "pad"),
+			SnapPad:   rapid.SampledFrom([]int{0, 100, 40000, 1 << 20, 3 << 20}).Draw(rt, "pad"),
 			AddNode:   rapid.Bool().Draw(rt, "add"),
 			StopStart: rapid.Bool().Draw(rt, "stopstart"),
+			KeepDown:  rapid.Bool().Draw(rt, "keepdown"),
+			LateAdd:   rapid.Bool().Draw(rt, "lateadd"),
+			RestoreMs: rapid.SampledFrom([]int{0, 400, 400}).Draw(rt, "restoreMs"),
+			LateMs:    rapid.SampledFrom([]int{20, 60, 120, 250}).Draw(rt, "lateMs"),
 		}
 		ops, snaps := runRealCluster(rt, dir, p)
 		col.Count("real_transport_cases", 1)
